@@ -91,6 +91,8 @@ def compile_records(ctx, progs, opts=None, variants=None):
             job.update(ov)
             if job.pop("__twin", False):
                 job["src"] = p["src2"]
+            if job.pop("__poles", False):
+                job["poles"] = p["pole"]
             jobs.append(job)
     res = compile_all(jobs)
     out = {}
@@ -686,7 +688,7 @@ def c08(ctx):
     design_mc(ctx, "MC_Layout", "MC_Layout.cfg")
 
     def item(p, rs):
-        return layout_item(p, rs[""])
+        return layout_item(p, rs[""], poles=p["job"].get("poles") or "")
     ok_recs = recs
     compiled = compile_records(ctx, recs)
     ctx.results = compiled
@@ -701,6 +703,154 @@ def c08(ctx):
                                                                   for e in compiled[p["id"]][""]["bp"]["blueprint"].get("entities", [])))
     run_refine(ctx, good, {"DomCap": 30 if quick else 120}, item_fn=item, batch_size=14, precompiled=compiled)
     validate_layout_traces(ctx, recs, compiled)
+
+
+@prop("C18")
+def c18(ctx):
+    quick = ctx.tier == "quick"
+    base = layout_corpus(ctx, 5 if quick else 12)
+    types = ["small", "medium", "big", "substation"]
+    recs = []
+    for p in base:
+        h = stable_hash(p["id"]) + ctx.seed
+        for t in ([types[h % 4]] if quick else types):
+            q = dict(p)
+            q["id"] = "%s-%s" % (p["id"], t)
+            q["pole"] = t
+            recs.append(q)
+    ctx.cov["corpus_size"] = len(recs)
+    ctx.cov["exhaustive"] = False
+    ctx.cov["rule"] = ("programs = GenLayout families + a slice of every other family, each compiled with --power-poles T (T in small, medium, "
+                       "big, substation) and without the option; TLC checks on the poled build: every electricity consumer touches the supply "
+                       "area of a pole of type T (prototype data from the game data), the poles form one copper network whose wires are within "
+                       "reach; on the plain build: every pole is a circuit relay; both builds run in lock-step (equal exported values) and "
+                       "carry the same user-placed entities")
+    ctx.assumptions = ASSUME_BASE + ["supply_area_distance / maximum_wire_distance / energy_source are read from the draftsman game data (Proto.tla)"]
+
+    def item(p, rs):
+        it = layout_item(p, rs["#poles"], u2=2, poles=p["pole"], poles2="", r1=False)
+        it["bps"].append(prep_bp(rs[""]["bp"], extra=it["bps"][0]["extra"]))
+        return it
+    variants = [("", {}), ("#poles", {"__poles": True})]
+    for p in recs:
+        p["job_poles"] = p["pole"]
+    run_refine(ctx, recs, {"DomCap": 30 if quick else 100}, item_fn=item, variants=variants, batch_size=12)
+
+
+UNRELATED = ('Signal q1 = ("signal-Q", 3);\nSignal q2 = 9;\nMemory qm: "signal-R";\nqm.write(q1 | "signal-R", when=q2 > 1);\n'
+             'Bundle qb = { q1, ("iron-plate", 4) };\nBundle qd = qb * 3;\nEntity ql = place("small-lamp", 3, 3);\nql.enable = any(qd) > 5;\n')
+
+
+@prop("C19")
+def c19(ctx):
+    from common import run_tlc, tagged_tuples, tlc_errors, unq
+    from encode import enc
+    quick = ctx.tier == "quick"
+    base = layout_corpus(ctx, 3 if quick else 10)
+    if quick:
+        base = pick(base, 22, ctx.seed)
+    ctx.cov["corpus_size"] = len(base)
+    ctx.cov["exhaustive"] = False
+    ctx.cov["rule"] = ("programs = GenLayout families + a slice of every other family; each compiled under 8 (quick) / 12 (thorough) variations: "
+                       "Python hash seeds 0,1,2,3 in fresh processes, another working directory, solver seed / deterministic-time budget / "
+                       "natural multi-worker wall-clock mode (hook H2), no-optimise excluded (same options only), a second in-process compile "
+                       "after an unrelated program, forced relaxation (first 3 strategies fail) and a forced routing retry; TLC compares the "
+                       "canonical form (Canon.tla: configured entities + partition of connectors into networks, relays contracted) of every "
+                       "build with the reference build; non-trivial = programs whose builds differ in position / numbering / relay count")
+    ctx.assumptions = ["Canon is sound (isomorphic circuits agree) and complete up to 1-WL", "background load is not varied (single sandbox)"] + ASSUME_BASE[2:3]
+    det = {"det": True, "seed": 7, "dtime": 0.5, "workers": 1}
+    variations = [
+        ("ref", "0", {}),
+        ("hashseed1", "1", {}),
+        ("hashseed2", "2", {}),
+        ("cwd", "0", {"cwd": "/"}),
+        ("solver-seed", "0", {"layout": dict(det, seed=23)}),
+        ("tiny-budget", "0", {"layout": dict(det, dtime=0.02)}),
+        ("natural-4-workers", "0", {"layout": {"workers": 4, "wall": 2}}),
+        ("after-unrelated", "0", {"pre_src": UNRELATED}),
+    ]
+    if not quick:
+        variations += [("hashseed3", "3", {}), ("relaxed-ladder", "0", {"layout": dict(det, solve=["none", "none", "none"])}),
+                       ("routing-retry", "0", {"layout": dict(det, route=[False])}), ("natural-1s", "1", {"layout": {"wall": 1}})]
+    results = {}
+    for hs in sorted({v[1] for v in variations}):
+        jobs = []
+        for p in base:
+            for name, h, ov in variations:
+                if h != hs:
+                    continue
+                job = {"id": p["id"] + "#" + name, "src": p["src"]}
+                job.update(ov)
+                jobs.append(job)
+        results.update(compile_all(jobs, hashseed=hs))
+    recs, bps = [], []
+    for p in base:
+        units, how = [], []
+        for name, h, ov in variations:
+            r = results[p["id"] + "#" + name]
+            if r.get("status") != "ok":
+                if name == "ref":
+                    break
+                continue
+            bps.append(prep_bp(r["bp"]))
+            units.append(len(bps))
+            how.append(name)
+        if len(units) >= 2:
+            recs.append({"id": p["id"], "units": units, "how": how})
+        else:
+            note_impl_reject(ctx, p, results[p["id"] + "#ref"])
+    ctx.add("evaluations", sum(len(r["units"]) for r in recs))
+    if not recs:
+        raise Machinery("nothing compiled")
+    # batches
+    tasks, dirs = [], []
+    B = 6
+    for i in range(0, len(recs), B):
+        chunk = recs[i:i + B]
+        lo = min(u for r in chunk for u in r["units"])
+        hi = max(u for r in chunk for u in r["units"])
+        sub = [dict(r, units=[u - lo + 1 for u in r["units"]]) for r in chunk]
+        d = os.path.join(ctx.wd, "canon%02d" % (i // B))
+        os.makedirs(d)
+        with open(os.path.join(d, "Data.tla"), "w") as fh:
+            fh.write("---- MODULE Data ----\nEXTENDS Integers, TLC\nBPs == <<\n %s\n>>\nRecs == <<\n %s\n>>\n====\n" % (
+                ",\n ".join(enc(b) for b in bps[lo - 1:hi]), ",\n ".join(enc(r) for r in sub)))
+        with open(os.path.join(d, "T.tla"), "w") as fh:
+            fh.write("---- MODULE T ----\nEXTENDS Canon\n====\n")
+        with open(os.path.join(d, "T.cfg"), "w") as fh:
+            fh.write("INIT CInit\nNEXT CNext\n")
+        dirs.append(d)
+        tasks.append(dict(module_dir=d, module="T", cfg="T.cfg", workers=1, timeout=1800))
+    from common import run_tlc_many
+    outs = run_tlc_many(tasks)
+    seen = 0
+    srcs = {p["id"]: p["src"] for p in base}
+    for d, (code, out, wall) in zip(dirs, outs):
+        with open(os.path.join(d, "tlc.out"), "w") as fh:
+            fh.write(out)
+        if tlc_errors(out) or code != 0:
+            raise Machinery("Canon.tla failed in %s: %s" % (d, "; ".join(tlc_errors(out))[:600]))
+        cs = tagged_tuples(out, "CANON")
+        seen += len(cs)
+        for c in cs:
+            ctx.add("states", int(c[3]) + int(c[4]))
+        for f in tagged_tuples(out, "FAIL"):
+            rid = unq(f[1])
+            ctx.violation(rid, unq(f[2]), ", ".join(f[3:]), {"src": srcs.get(rid), "item": {}, "module": "Canon"})
+    if seen != len(recs):
+        raise Machinery("Canon evaluated %d of %d records" % (seen, len(recs)))
+    ctx.add("transitions", ctx.cov["states"])
+    ctx.add("traces_validated_against_impl", sum(len(r["units"]) for r in recs))
+    # non-triviality: the builds of a program really differ physically (positions / numbering / relays)
+    nontriv = 0
+    for r in recs:
+        raw = {json.dumps(bps[u - 1]["entities"], sort_keys=True) + json.dumps(bps[u - 1]["wires"]) for u in r["units"]}
+        if len(raw) >= 2:
+            nontriv += 1
+    ctx.add("distinct_nontrivial", nontriv)
+    ctx.cov["programs"] = len(recs)
+    for r in recs[:3]:
+        ctx.sample({"src": srcs[r["id"]], "variants_compared": r["how"]})
 
 
 def design_mc(ctx, module, cfg):
